@@ -103,13 +103,40 @@ def indexes_model(idxs, schema):
 
 def gen_enum_models():
     out = []
-    for schema, n, names in itertools.product(('public', 's', 'my schema'), (1, 2, 3), (['a', 'b', 'c'], ['x y', 'p.q', 'é'], ['1', 'Z', '-'])):
+    for schema, n, names in itertools.product(('public', 's', 'my schema'), (1, 2, 3), (['a', 'b', 'c'], ['x y', 'p.q', 'é'], ['1', 'Z', '-'], ["it's", "'", "a''b"])):
         e1 = A.enum('e', names[:n], schema=schema)
         e2 = A.enum('e', ['k'], schema='other')
         t = A.table('t', [A.col('a', ['enum', schema, 'e']), A.col('b', ['enum', 'other', 'e'])])
         for order in ((e1, e2), (e2, e1)):
             out.append(A.model(tables=[t], enums=list(order)))
     return out
+
+
+QUOTE_NAMES = ['a"b', '"', 'x""y']
+QUOTE_POSITIONS = ['table', 'schema', 'column', 'enum', 'enum_schema', 'index_name']
+
+
+def quote_name_model(pos, name):
+    """identifiers that contain a double quote: inexpressible in DBML, but a database built through the classes may carry them"""
+    e = A.enum('e', ['i'])
+    t = A.table('t', [A.col('id', 'int', note='n'), A.col('v', ['enum', 'public', 'e'])], schema='s', note='tn',
+                indexes=[A.index(['id'], name='ix'), A.index(['id', 'v'], pk=True)])
+    if pos == 'table':
+        t['name'] = name
+    elif pos == 'schema':
+        t['schema'] = name
+    elif pos == 'column':
+        t['columns'][0]['name'] = name
+        for i in t['indexes']:
+            i['subjects'][0][1] = name
+    elif pos == 'enum':
+        e['name'] = name
+    elif pos == 'enum_schema':
+        e['schema'] = name
+    elif pos == 'index_name':
+        t['indexes'][0]['name'] = name
+    t['columns'][1]['type'] = ['enum', e['schema'], e['name']]
+    return A.model(tables=[t], enums=[e])
 
 
 def check_db(p, m, route, case, label):
@@ -184,6 +211,8 @@ def model_of(case):
     if mode == 'indexes':
         idxs = gen_indexes()
         return indexes_model([idxs[i] for i in case['idx']], case['schema'])
+    if mode == 'apinames':
+        return quote_name_model(case['pos'], case['name'])
     return gen_enum_models()[case['k']]
 
 
@@ -199,6 +228,7 @@ def units(tier, seed):
     for k in range(0, nidx, 120):
         us.append(('indexes', list(range(k, min(nidx, k + 120))), tier, seed))
     us.append(('enums', None, tier, seed))
+    us.append(('apinames', None, tier, seed))
     return us
 
 
@@ -247,6 +277,13 @@ def work(unit):
                 for route in routes_for(tier, n + seed):
                     check_db(p, m, route, case, 'indexes')
                 n += 1
+                p['nontrivial'].add(digest(case))
+        p['samples'].append(case)
+    elif mode == 'apinames':
+        for pos in QUOTE_POSITIONS:
+            for name in QUOTE_NAMES:
+                case = {'mode': 'apinames', 'pos': pos, 'name': name}
+                check_db(p, model_of(case), 'api', case, 'apinames')
                 p['nontrivial'].add(digest(case))
         p['samples'].append(case)
     else:
